@@ -124,8 +124,22 @@ func (e *storeEnv) namesBatch(tuples []*ketoapi.RelationTuple) map[string]any {
 		}
 		res["distinct_names"] = len(list)
 	}
-	// 3. write, then read back through REST and gRPC listings
+	// 3. write, then read back through REST and gRPC listings. The names written here
+	// have never been mapped before (suffix), so that the first, failing attempt is the
+	// one that introduces them.
 	e.setInitial(nil)
+	fresh := func(s string) string { return s + "~w" }
+	var wtuples []*ketoapi.RelationTuple
+	for _, t := range tuples {
+		w := &ketoapi.RelationTuple{Namespace: t.Namespace, Object: fresh(t.Object), Relation: t.Relation}
+		if t.SubjectID != nil {
+			w.SubjectID = ptr(fresh(*t.SubjectID))
+		} else {
+			w.SubjectSet = &ketoapi.SubjectSet{Namespace: t.SubjectSet.Namespace, Object: fresh(t.SubjectSet.Object), Relation: t.SubjectSet.Relation}
+		}
+		wtuples = append(wtuples, w)
+	}
+	tuples = wtuples
 	req := &rts.TransactRelationTuplesRequest{}
 	for _, t := range tuples {
 		req.RelationTupleDeltas = append(req.RelationTupleDeltas, &rts.RelationTupleDelta{Action: rts.RelationTupleDelta_ACTION_INSERT, RelationTuple: t.ToProto()})
